@@ -7,7 +7,7 @@ use embedded_graphics::{
     geometry::Point,
     mock_display::{ColorMapping, MockDisplay},
     pixelcolor::{BinaryColor, Gray2, Gray4, Gray8, PixelColor, Rgb565, Rgb888, RgbColor},
-    primitives::Rectangle,
+    primitives::{PointsIter, Rectangle},
     Drawable, Pixel,
 };
 use std::collections::BTreeMap;
@@ -16,14 +16,14 @@ pub fn prop() -> Prop {
     Prop {
         id: "C20",
         level: "exploration",
-        rule: "proptest tapes decoding to a history of 0..=14 operations {draw a single Pixel, draw_iter with 1..=5 pixels, set_pixel(Some/None) in range} with points in [-3,67]^2 plus i32 extremes and deliberately repeated points, under the four combinations of allow_overdraw / allow_out_of_bounds_drawing, for BinaryColor, Gray2, Gray4, Gray8 (0x11 multiples), Rgb565 and Rgb888 (the 8 named colours). Oracle (model-based): a map kept by the harness; a drawing operation must panic iff some pixel is (outside and out-of-bounds drawing is not allowed) or (inside, already set, and overdraw is not allowed) -- judged with catch_unwind on a clone, and the message names the right reason; after every operation that must not panic get_pixel equals the model on all 4096 cells and affected_area is the tight box of the model; at the end from_pattern(parse(Debug output)) == display, a display rebuilt from the model compares equal and has an empty diff, and after changing one cell the two compare unequal and diff marks exactly that cell. A second sub-check generates patterns over each colour type's complete character set (BinaryColor . #, Gray2 0-3, Gray4 / Gray8 0-9A-F, RGB types K R G B Y M C W, blanks), up to 64x64: from_pattern must set exactly the cells the pattern names to the colour the documented character table gives (own table in the harness), Debug must reproduce the pattern rows (padded to 64 columns, trailing empty rows skipped), and from_pattern(Debug) must compare equal. Non-trivial: the history contains a repeated in-range point and an out-of-range point; a pattern with >= 2 rows, >= 3 different characters and a blank.",
+        rule: "proptest tapes decoding to a history of 0..=14 operations {draw a single Pixel, draw_iter with 1..=5 pixels, set_pixel(Some/None) in range, fill_solid / fill_contiguous (exact, short and long colour streams) / a filled Rectangle drawable on areas up to 5x5 inside, across the edges, completely outside and far away, clear} with points in [-3,67]^2 plus i32 extremes and deliberately repeated points, under the four combinations of allow_overdraw / allow_out_of_bounds_drawing, for BinaryColor, Gray2, Gray4, Gray8 (0x11 multiples), Rgb565 and Rgb888 (the 8 named colours). Oracle (model-based): a map kept by the harness; a drawing operation must panic iff some pixel is (outside and out-of-bounds drawing is not allowed) or (inside, already set, and overdraw is not allowed) -- judged with catch_unwind on a clone, and the message names the right reason; after every operation that must not panic get_pixel equals the model on all 4096 cells and affected_area is the tight box of the model; at the end from_pattern(parse(Debug output)) == display, a display rebuilt from the model compares equal and has an empty diff, and after changing one cell the two compare unequal and diff marks exactly that cell. A second sub-check generates patterns over each colour type's complete character set (BinaryColor . #, Gray2 0-3, Gray4 / Gray8 0-9A-F, RGB types K R G B Y M C W, blanks), up to 64x64: from_pattern must set exactly the cells the pattern names to the colour the documented character table gives (own table in the harness), Debug must reproduce the pattern rows (padded to 64 columns, trailing empty rows skipped), and from_pattern(Debug) must compare equal. Non-trivial: the history contains a repeated in-range point and an out-of-range point; a pattern with >= 2 rows, >= 3 different characters and a blank.",
         assumptions: vec![
             "get_pixel is only called with points inside the 64x64 area (it indexes unchecked by design)",
             "patterns use each colour type's canonical characters",
         ],
         subs: vec![
-            Sub::tape("histories", 120, 40_000, 2_000_000, histories),
-            Sub::tape("patterns", 140, 20_000, 1_000_000, patterns),
+            Sub::tape("histories", 120, 100_000, 5_000_000, histories),
+            Sub::tape("patterns", 140, 50_000, 2_500_000, patterns),
         ],
     }
 }
@@ -44,6 +44,14 @@ enum Op<C> {
     Pixel(Point, C),
     Iter(Vec<(Point, C)>),
     Set(Point, Option<C>),
+    /// `DrawTarget::fill_solid`
+    FillSolid(Rectangle, C),
+    /// `DrawTarget::fill_contiguous` with a stream of exactly, fewer or more colours than the area
+    FillContiguous(Rectangle, Vec<C>),
+    /// `DrawTarget::clear`
+    Clear(C),
+    /// a filled `Rectangle` drawable
+    StyledRect(Rectangle, C),
 }
 
 fn inside(p: Point) -> bool {
@@ -69,7 +77,43 @@ where
         }
     };
     for _ in 0..nops {
-        let op = match d.u(0, 9) {
+        let gen_area = |d: &mut Dec, used: &Vec<Point>| -> Rectangle {
+            let tl = match d.u(0, 3) {
+                // completely outside on one axis, or far away
+                0 => d.pick(&[Point::new(-9, 4), Point::new(4, -9), Point::new(64, 60), Point::new(60, 64), Point::new(70, 70), Point::new(-20, -20), Point::new(1000, 3), Point::new(3, -1000)]),
+                _ => {
+                    let q = gen_point(d, used);
+                    Point::new(q.x.clamp(-2000, 2000) - d.i(0, 3), q.y.clamp(-2000, 2000) - d.i(0, 3))
+                }
+            };
+            Rectangle::new(tl, embedded_graphics::geometry::Size::new(d.u(0, 5), d.u(0, 5)))
+        };
+        let op = match d.u(0, 12) {
+            10 => {
+                let a = gen_area(d, &used);
+                used.extend(a.points().take(3));
+                Op::FillSolid(a, d.pick(palette))
+            }
+            11 => {
+                let a = gen_area(d, &used);
+                used.extend(a.points().take(3));
+                let full = (a.size.width * a.size.height) as usize;
+                let n = match d.u(0, 3) {
+                    0 => d.u(0, full as u32) as usize,
+                    1 => full + d.u(1, 4) as usize,
+                    _ => full,
+                };
+                Op::FillContiguous(a, (0..n).map(|_| d.pick(palette)).collect())
+            }
+            12 => {
+                if d.ratio(1, 4) {
+                    Op::Clear(d.pick(palette))
+                } else {
+                    let a = gen_area(d, &used);
+                    used.extend(a.points().take(3));
+                    Op::StyledRect(a, d.pick(palette))
+                }
+            }
             0..=4 => {
                 let p = gen_point(d, &used);
                 used.push(p);
@@ -121,11 +165,15 @@ where
                     }
                 }
             }
-            Op::Pixel(..) | Op::Iter(..) => {
+            _ => {
+                // the documented meaning of every drawing operation: a sequence of pixels
                 let pixels: Vec<(Point, C)> = match op {
                     Op::Pixel(p, c) => vec![(*p, *c)],
                     Op::Iter(v) => v.clone(),
-                    _ => unreachable!(),
+                    Op::FillSolid(a, c) | Op::StyledRect(a, c) => a.points().map(|p| (p, *c)).collect(),
+                    Op::FillContiguous(a, cs) => a.points().zip(cs.iter().copied()).collect(),
+                    Op::Clear(c) => Rectangle::new(Point::zero(), embedded_graphics::geometry::Size::new(64, 64)).points().map(|p| (p, *c)).collect(),
+                    Op::Set(..) => unreachable!(),
                 };
                 // what the documentation says must happen
                 let mut trial = model.clone();
@@ -149,13 +197,17 @@ where
                     trial.insert((p.x, p.y), *c);
                 }
                 let mut clone = display.clone();
-                let is_single = matches!(op, Op::Pixel(..));
-                let result = catch(|| {
-                    if is_single {
-                        Pixel(pixels[0].0, pixels[0].1).draw(&mut clone).unwrap();
-                    } else {
-                        clone.draw_iter(pixels.iter().map(|(p, c)| Pixel(*p, *c))).unwrap();
+                let result = catch(|| match op {
+                    Op::Pixel(p, c) => Pixel(*p, *c).draw(&mut clone).unwrap(),
+                    Op::Iter(v) => clone.draw_iter(v.iter().map(|(p, c)| Pixel(*p, *c))).unwrap(),
+                    Op::FillSolid(a, c) => clone.fill_solid(a, *c).unwrap(),
+                    Op::FillContiguous(a, cs) => clone.fill_contiguous(a, cs.iter().copied()).unwrap(),
+                    Op::Clear(c) => clone.clear(*c).unwrap(),
+                    Op::StyledRect(a, c) => {
+                        use embedded_graphics::primitives::{Primitive, PrimitiveStyle};
+                        a.into_styled(PrimitiveStyle::with_fill(*c)).draw(&mut clone).unwrap()
                     }
+                    Op::Set(..) => unreachable!(),
                 });
                 match (expect_panic, result) {
                     (None, Ok(())) => {
